@@ -424,7 +424,7 @@ pub fn run(ctx: &Ctx) -> i32 {
     // M2: the full product {absent, valid} for option and metadata of all five parameters x factors file
     let m2 = vec![first2(&d.area_opt), first2(&d.area_meta), first2(&d.k_opt), first2(&d.k_meta), first2(&d.loc_opt), first2(&d.loc_meta), first2(&d.red1_opt), first2(&d.red1_meta), first2(&d.red2_opt), first2(&d.red2_meta), d.file.clone()];
     explore(ctx, "product {absent, valid}^10 x {no file, file}", Layered { slots: m2, bases: base.clone() }, C19, shared.clone());
-    if !ctx.quick() {
+    {
         // M3: all pairs of parameters over their full domains
         let all: Vec<(&str, Vec<Letter>, Vec<Letter>)> = vec![("area", d.area_opt.clone(), d.area_meta.clone()), ("k", d.k_opt.clone(), d.k_meta.clone()), ("loc", d.loc_opt.clone(), d.loc_meta.clone()), ("red1", d.red1_opt.clone(), d.red1_meta.clone()), ("red2", d.red2_opt.clone(), d.red2_meta.clone())];
         for i in 0..all.len() {
@@ -436,6 +436,12 @@ pub fn run(ctx: &Ctx) -> i32 {
                 explore(ctx, &format!("pair {} x {} over full domains", all[i].0, all[j].0), Layered { slots, bases: base.clone() }, C19, shared.clone());
             }
         }
+    }
+    if !ctx.quick() {
+        // M4: three choices for every option and metadata of all five parameters at once x factors file
+        let first3 = |v: &[Letter]| v[..3].to_vec();
+        let m4 = vec![first3(&d.area_opt), first3(&d.area_meta), first3(&d.k_opt), first3(&d.k_meta), first3(&d.loc_opt), first3(&d.loc_meta), first3(&d.red1_opt), first3(&d.red1_meta), first3(&d.red2_opt), first3(&d.red2_meta), d.file.clone()];
+        explore(ctx, "product {absent, value 1, value 2 / bad}^10 x {no file, file}", Layered { slots: m4, bases: base.clone() }, C19, shared.clone());
     }
     let _ = alpha::bases(false);
     finish(
